@@ -3,6 +3,7 @@ package rules
 import (
 	"fmt"
 	"go/token"
+	"go/types"
 	"reflect"
 	"strings"
 
@@ -526,4 +527,127 @@ func ruleRequiredSetUnconditional(c *Ctx) {
 		})
 	}
 	c.R.Floor(rule, "stores of the required-name set", n, 1)
+}
+
+// Three small clauses from round 8.
+func init() {
+	for _, pid := range []string{"C03", "C18", "C06"} {
+		pid := pid
+		Properties[pid].Rules = append(Properties[pid].Rules, Rule{pid + "/first-anchor-wins", func(c *Ctx) { ruleFirstAnchorWins(c, pid+"/first-anchor-wins") }})
+	}
+	for _, pid := range []string{"C20", "C17"} {
+		pid := pid
+		Properties[pid].Rules = append(Properties[pid].Rules, Rule{pid + "/registry-not-filtered-by-name", func(c *Ctx) { ruleRegistryNotFilteredByName(c, pid+"/registry-not-filtered-by-name") }})
+	}
+	Properties["C02"].Rules = append(Properties["C02"].Rules, Rule{"C02/id-beside-ref-for-every-schema", ruleIDBesideRefEverySchema})
+}
+
+// An anchor name is registered only where the resource has none of that name yet: the entry into the anchor table is
+// guarded by a failed lookup of the same name in the same table. (The callers drop the duplicate error on purpose;
+// which registration survives is decided here, and it is the first in walk order.)
+func ruleFirstAnchorWins(c *Ctx, rule string) {
+	n := 0
+	for _, fn := range c.Closure(rule, "RES").Minus(c.Closure(rule, "EV")).Sorted() {
+		core.EachInstr(fn, func(i ssa.Instruction) {
+			mu, ok := i.(*ssa.MapUpdate)
+			if !ok {
+				return
+			}
+			_, steps := c.accessPath(mu.Map)
+			if len(steps) == 0 || steps[len(steps)-1].Field != "resolvedInfo.anchors" {
+				return
+			}
+			n++
+			absent := false
+			for _, g := range guardsOf(mu) {
+				ex, ok := g.Cond.(*ssa.Extract)
+				if !ok || g.Pol || ex.Index != 1 {
+					continue
+				}
+				lk, ok := ex.Tuple.(*ssa.Lookup)
+				if !ok || !(lk.Index == mu.Key || sharesSource(lk.Index, mu.Key)) {
+					continue
+				}
+				if _, st2 := c.accessPath(lk.X); len(st2) > 0 && st2[len(st2)-1].Field == "resolvedInfo.anchors" {
+					absent = true
+				}
+			}
+			c.R.Check(absent, rule, fmt.Sprintf("%s:anchor-entry#%d", core.FuncName(fn), n), c.pos(mu), "an anchor is entered only if the resource has none of that name yet", "an anchor is entered into the table without a preceding failed lookup of its name (the duplicate is reported afterwards, and the callers drop that error): the last of two equal names in walk order wins instead of the first, so a never-referenced subschema that repeats a name captures the references to it")
+		})
+	}
+	c.R.Floor(rule, "entries into a resource's anchor table", n, 1)
+}
+
+// The table of schema-bearing fields is built from the fields of Schema as they are: no keyword is left out by name.
+// (A field missing from the table is not cloned, not walked and not checked for sharing.)
+func ruleRegistryNotFilteredByName(c *Ctx, rule string) {
+	n := 0
+	for _, fn := range c.P.Funcs {
+		top := fn
+		for top.Parent() != nil {
+			top = top.Parent()
+		}
+		if !c.P.InPkg(fn) || !strings.HasPrefix(top.Name(), "init") {
+			continue
+		}
+		core.EachInstr(fn, func(i ssa.Instruction) {
+			call, ok := i.(*ssa.Call)
+			if !ok || core.CalleeKey(&call.Call) != "builtin.append" {
+				return
+			}
+			sl, isSlice := call.Type().Underlying().(*types.Slice)
+			if !isSlice || !c.isPkgNamed(sl.Elem(), "structFieldInfo") {
+				return
+			}
+			n++
+			var byName []string
+			for _, g := range controlGuards(call) {
+				bo, ok := g.Cond.(*ssa.BinOp)
+				if !ok || (bo.Op != token.EQL && bo.Op != token.NEQ) {
+					continue
+				}
+				// a comparison of the field's JSON name (not of its Go name, by which the fields tagged "-" are added
+				// back) with a keyword, on the side that keeps the field out
+				excludes := (bo.Op == token.NEQ && g.Pol) || (bo.Op == token.EQL && !g.Pol)
+				for _, pair := range [][2]ssa.Value{{bo.X, bo.Y}, {bo.Y, bo.X}} {
+					if s, ok := constString(pair[1]); ok && s != "" && s != "-" && excludes && mentionsStructFieldNamed(pair[0], "name", 3) {
+						byName = append(byName, fmt.Sprintf("%q at %s", s, c.pos(g.At)))
+					}
+				}
+			}
+			c.R.Check(len(byName) == 0, rule, fmt.Sprintf("field-table:append#%d", n), c.pos(call), "no field is kept out of the table of schema fields by its name", fmt.Sprintf("the table of the fields of Schema is filled under a comparison with a keyword name (%v): the subschemas under that keyword are not cloned by CloneSchemas, not visited by the tree walk and not seen by the sharing check", byName))
+		})
+	}
+	c.R.Floor(rule, "places where package initialisation fills the table of schema fields", n, 1)
+}
+
+// Under draft-07 the $id beside a $ref is ignored in every schema, the root included: what decides is the draft and
+// the presence of $ref, not which schema it is.
+func ruleIDBesideRefEverySchema(c *Ctx) {
+	const rule = "C02/id-beside-ref-for-every-schema"
+	n := 0
+	want, okDraft := c.draftConst("draft7")
+	for _, fn := range c.Closure(rule, "RES").Minus(c.Closure(rule, "EV")).Sorted() {
+		core.EachInstr(fn, func(i ssa.Instruction) {
+			bo, ok := i.(*ssa.BinOp)
+			if !ok || (bo.Op != token.EQL && bo.Op != token.NEQ) || !isPointer(bo.X.Type()) || !c.isPkgNamed(bo.X.Type(), "Schema") {
+				return
+			}
+			if !(c.mentionsField(bo.X, "Resolved.root", 3) || c.mentionsField(bo.Y, "Resolved.root", 3)) {
+				return
+			}
+			n++
+			underDraft, underRef := false, false
+			for _, g := range guardsOf(bo) {
+				if okDraft && c.guardIsDraft(g, want) {
+					underDraft = true
+				}
+				if c.mentionsField(g.Cond, "Schema.Ref", 4) {
+					underRef = true
+				}
+			}
+			c.R.Check(!(underDraft && underRef), rule, fmt.Sprintf("%s:root-identity-test#%d", core.FuncName(fn), n), c.pos(bo), "a comparison with the root does not take part in the draft-07 rule for keywords beside $ref", "under the draft-07 test and the presence of $ref the code additionally asks whether the schema is the root: a root that is `$id` + `$ref` is exempted from \"the keywords beside $ref are ignored\", its $id becomes the base URI, and its relative $ref selects the document next to the $id instead of the one next to the retrieval URI")
+		})
+	}
+	c.R.OK(rule, "examined", "", fmt.Sprintf("%d comparisons of a schema with the root in the resolution code", n))
 }
